@@ -329,7 +329,7 @@ pub fn run(ctx: &Ctx) -> RunResult {
         "cryptographic collisions are ignored".into(),
         "key strings come from OpaqueString-stable alphabets (self-tested against precis-profiles)".into(),
     ];
-    rr.absorb(run_prop(ctx, "integrity", ctx.pick(3_000, 60_000), arb_case, |c, st| check_mi(c, st)));
+    rr.absorb(run_prop(ctx, "integrity", ctx.pick(8_000, 100_000), arb_case, |c, st| check_mi(c, st)));
     rr
 }
 
